@@ -232,6 +232,19 @@ def copyPanicsK (T : Tables) (sh : Shape) (ty : Nat) : Nat → List Val → Bool
   | i, k :: ks => (T.modeAt sh ty i == .deep && copyPanics T k) || copyPanicsK T sh ty (i + 1) ks
 end
 
+mutual
+/-- every node of the value — wherever it sits — is of a type and shape `Copy`'s type switch has a case for, and the
+value contains no typed-nil pointer: a structural condition on the value alone (`copy_never_panics`: it rules out
+every panic of `Copy`) -/
+def allHandled (T : Tables) : Val → Bool
+  | .node sh _ ty _ kids => T.handles sh ty && allHandledL T kids
+  | .tnil _ => false
+  | _ => true
+def allHandledL (T : Tables) : List Val → Bool
+  | [] => true
+  | k :: ks => allHandled T k && allHandledL T ks
+end
+
 /-- the field is copied deeply, or shallowly where sharing is unobservable -/
 def Field.copyOK (f : Field) : Bool :=
   match f.mode with
